@@ -155,6 +155,9 @@ static CO_OBJ_STR od_str = { 0, app.str };
 static uint16_t od_high[2];
 static uint8_t  od_high_b;
 #endif
+#ifdef OD_UABORT
+extern const CO_OBJ_TYPE UTypeA, UTypeR;   /* application object types of sdo_uabort.c */
+#endif
 #define OD_ID(i,s,f)  CO_KEY((i),(s),(f))
 
 /* ---- dictionary (sorted) -------------------------------------------------- */
@@ -316,6 +319,13 @@ static CO_OBJ od[] = {
     { OD_ID(0x2109, 2, CO_OBJ_____RW), CO_TUNSIGNED8,  (CO_DATA)&app.arr[1] },
     { OD_ID(0x2110, 0, CO_OBJ_____RW), CO_TDOMAIN,     (CO_DATA)&od_dom },
     { OD_ID(0x2111, 0, CO_OBJ_____R_), CO_TSTRING,     (CO_DATA)&od_str },
+#endif
+#ifdef OD_DN16
+    { OD_ID(0x2112, 0, (CO_OBJ_D_____ | CO_OBJ__N____ | CO_OBJ_____RW)), CO_TUNSIGNED16, (CO_DATA)0x1234 },   /* 16 bit, direct storage, node-id relative */
+#endif
+#ifdef OD_UABORT
+    { OD_ID(0x2200, 0, CO_OBJ_____RW), ((const CO_OBJ_TYPE *)&UTypeA), (CO_DATA)0 },
+    { OD_ID(0x2201, 0, CO_OBJ_____RW), ((const CO_OBJ_TYPE *)&UTypeR), (CO_DATA)0 },
 #endif
 #ifdef OD_HIGH
     /* entries in the upper half of the index range (profile / network variables): index distance to the
